@@ -12,7 +12,21 @@ import random as _random
 
 from ..core import Prop, Violation, import_repo, show_bool
 
-SPECIAL = {100: "s", 101: None, 102: "", 103: "1"}
+SPECIAL = {100: "s", 101: None, 102: "", 103: "1", 104: True, 105: 1.0}     # 1, True, 1.0 are == but JSON-distinct
+
+
+def rnd_code(c: str):
+    """what the pinned random pass (random() == 0.5) asks for on a value: int -> same int, True -> 1 (int(True + 0.0)),
+    1.0 -> 1.0, non-numeric -> not visited"""
+    if c.isdigit():
+        k = int(c)
+        if k < 100:
+            return c
+        if k == 104:
+            return "1"
+        if k == 105:
+            return "105"
+    return None
 TYPES = {"s": "structural", "r": "regulatory", "h": "housekeeping", "c": "conditional", "d": "dormant"}
 TYPES_INV = {v: k for k, v in TYPES.items()}
 REASONS = {"": "u", "rollback": "rb", "replication_mutation": "rep", "random_mutation": "rnd"}
@@ -187,7 +201,8 @@ class C20(Prop):
         self.m = m
 
     # --- generation ------------------------------------------------------------------------------------
-    VALPOOL = [0, 1, 2, 3, 5, 7, 100, 101, 102, 103]
+    VALPOOL = [0, 1, 1, 2, 3, 5, 7, 100, 101, 102, 103, 104, 105]
+    EQ1 = [1, 104, 105, 103]       # ==-equal (or look-alike) values of different types
 
     def _gene(self, rng, n):
         return (f"{n}:{rng.choice(self.VALPOOL)}:{rng.choice('ssrhcd')}:{rng.randint(0, 1)}:"
@@ -219,11 +234,17 @@ class C20(Prop):
             lines = [f"adv {aset_s} {script}"]
             nroots = 1 if rng.random() < 0.8 else 2
             count = 0
+            known = {}          # gene name -> values it plausibly holds (constructor values, mutate targets)
+            ctxpool = [rng.choice(["none", "-"])] + [
+                ",".join(str(x) for x in rng.sample(names, min(k_, len(names)))) or "-" for k_ in (1, 2)]
+            sandwich = rng.random() < 0.5       # express before/after changes, same and different context sets
             for _ in range(nroots):
                 allow = rng.random() < 0.25
                 cb = rng.choice(["none", "0", "0", "0", "1"])
                 rate = rng.random() < 0.2
                 gl = [self._gene(rng, nm) for nm in names if rng.random() < 0.9]
+                for g_ in gl:
+                    known.setdefault(int(g_.split(":")[0]), []).append(int(g_.split(":")[1]))
                 if rng.random() < 0.12 and names:
                     gl.append(self._gene(rng, rng.choice(names)))       # duplicate name in the constructor list
                 rng.shuffle(gl)
@@ -235,14 +256,31 @@ class C20(Prop):
                 if approved_vals and rng.random() < 0.5:
                     return rng.choice(approved_vals)
                 return rng.choice(self.VALPOOL + [9, 11])
+            def readd(nm):
+                """a re-add that mostly KEEPS the stored value (or an ==-equal one of another type) and changes the
+                gene type / default expression level"""
+                r_ = rng.random()
+                if nm in known and r_ < 0.6:
+                    v_ = rng.choice(known[nm])
+                    if v_ in self.EQ1 and rng.random() < 0.4:
+                        v_ = rng.choice(self.EQ1)
+                elif r_ < 0.75:
+                    v_ = rng.choice(self.EQ1)
+                else:
+                    v_ = rng.choice(self.VALPOOL)
+                return f"{nm}:{v_}:{rng.choice('ssrhcdcd')}:{rng.randint(0, 1)}:{rng.choice('00122234')}"
             nops = rng.choice([2, 4, 6, 8, 8, 10, 12])
             recent = []         # (genome, gene) pairs a mutate was tried on: rollbacks prefer them
             for _ in range(nops):
                 i = rng.randrange(count) if rng.random() < 0.97 else count + 1
                 nm = rng.choice(names) if rng.random() < 0.93 else len(names) + 1
                 r = rng.random()
+                if sandwich and rng.random() < 0.6:
+                    lines.append(f"express {i} {rng.choice(ctxpool)}")
                 if r < 0.27:
-                    lines.append(f"mutate {i} {nm} {pick_val()}")
+                    v_ = pick_val()
+                    lines.append(f"mutate {i} {nm} {v_}")
+                    known.setdefault(nm, []).append(v_)
                     recent.append((i, nm))
                 elif r < 0.44:
                     if recent and rng.random() < 0.75:
@@ -251,7 +289,7 @@ class C20(Prop):
                     if rng.random() < 0.25:
                         lines.append(f"rollback {i} {nm}")       # rolling back twice = redo
                 elif r < 0.52:
-                    lines.append(f"add {i} {self._gene(rng, nm)}")
+                    lines.append(f"add {i} {readd(nm)}")
                 elif r < 0.58:
                     lines.append(f"expr {i} {nm} {rng.choice('01234')}")
                 elif r < 0.62:
@@ -275,7 +313,11 @@ class C20(Prop):
                     lines.append(f"express {i} {ctx}")
                 else:
                     lines.append(f"getv {i} {nm}")
-            yield {"lines": lines, "note": "random"}
+                if sandwich and rng.random() < 0.7:
+                    lines.append(f"express {i} {rng.choice(ctxpool)}")
+                    if rng.random() < 0.3:
+                        lines.append(f"express {rng.randrange(count)} {rng.choice(ctxpool)}")
+            yield {"lines": lines, "note": "random" + (" (express before/after every change)" if sandwich else "")}
 
     def _scripted(self, rng):
         """every gate decision comes from the script (approve / refuse / raise), on one gene of one lineage"""
@@ -320,6 +362,20 @@ class C20(Prop):
                     cases.append({"lines": [f"adv {a}", nw] + list(ops), "note": f"exhaustive depth {k}"})
         spaces = [{"name": f"all histories of depth <= {depth} over a 10-operation alphabet on a 2-gene parent and its "
                            f"first child x {len(cfgs)} gate configurations", "cases": cases}]
+        # repeated express() around every kind of change (same / different context sets), on a genome with mutations
+        # enabled and on a callback-gated one: re-adds that keep the value but change type / level, ==-equal values
+        alphaE = ["express 0 -", "express 0 1", "add 0 0:1:d:1:2", "add 0 0:1:s:1:0", "add 0 0:104:s:1:2",
+                  "add 0 1:2:s:0:3", "silence 0 0", "mutate 0 0 7", "replicate 0 1 -", "express 1 1"]
+        dE = 3 if tier == "quick" else 4
+        cE = []
+        for a, nw in [("- -", "new 1 none 0 0:1:s:1:2 1:2:c:0:3"), ("0:* -", "new 0 0 0 0:1:s:1:2 1:2:c:0:3")]:
+            for k in range(1, dE + 1):
+                for ops in itertools.product(alphaE, repeat=k):
+                    cE.append({"lines": [f"adv {a}", nw, "express 0 -", "express 0 1"] + list(ops) +
+                               ["express 0 -", "express 0 1", "express 0 0,1"], "note": f"exhaustive express depth {k}"})
+        spaces.append({"name": f"all histories of depth <= {dE} over a 10-operation express/re-add/silence/mutate/replicate "
+                               "alphabet, bracketed by express() with three context sets x 2 gate configurations",
+                       "cases": cE})
         if tier != "quick":
             # depth 5 on the operations that interact through the log (approve / refuse / rollback / replicate)
             alpha5 = ["mutate 0 0 7", "mutate 0 0 5", "mutate 0 1 8", "rollback 0 0", "replicate 0 1 0:7",
@@ -617,11 +673,15 @@ class C20(Prop):
                     if b["rate"]:
                         # environment set by the harness: the random pass attempts n -> (same value) on int genes
                         for n in list(c["genes"]):
-                            if n in cur and cur[n].isdigit() and int(cur[n]) < 100:
-                                if authorised(b, n, cur[n]):
+                            tgt = rnd_code(cur[n]) if n in cur else None
+                            if tgt is not None:
+                                if authorised(b, n, tgt):
                                     prev[(cid, n)] = cur[n]
+                                    if tgt != cur[n]:
+                                        touched.setdefault(cid, set()).add(n)
+                                    cur[n] = tgt
                                 else:
-                                    expect_refusal_logged(c, [], n, cur[n], "refused random mutation")
+                                    expect_refusal_logged(c, [], n, tgt, "refused random mutation")
                     for n in b["genes"]:
                         if n not in c["genes"]:
                             continue
@@ -629,7 +689,7 @@ class C20(Prop):
                             V("child_differs_only_in_authorised", f"gene {n} record inherited",
                               f"{b['genes'][n]} vs {c['genes'][n]}", idx)
                         cv = c["genes"][n]["value"]
-                        if cv != bv[n] and not (muts.get(n) == cv and n in granted):
+                        if cv != bv[n] and cv != cur.get(n):     # cur = parent's values + the authorised changes only
                             V("child_differs_only_in_authorised", f"child gene {n} = parent's {bv[n]}",
                               f"{cv} (requested {muts.get(n)}, not authorised)", idx)
                     if c["parent_hash"] != b["hash"]:
